@@ -397,6 +397,13 @@ def redis_txn_rules(ctx: Ctx, ops=("enqueue", "ack", "nack", "reject", "requeue"
               instance="redis take: held mark")
 
 
+def piq_sites(ctx: Ctx, f: FuncInfo) -> list[ast.Call]:
+    """Calls of the Redis routing helper __put_in_queue made by broker operation f - directly or through private helpers of the broker;
+    arguments are expressed in f's own terms (helpers are inlined with their parameters substituted)."""
+    g = ctx.icfg(f, exclude=("__put_in_queue",) + tuple(C.BROKER_OPS), substitute=True)
+    return [n.ast for n in g.calls() if any(cal.name == "__put_in_queue" for cal in ctx.res.callees(n.func, n.ast, record=False)) or (n.callee or "").endswith("__put_in_queue")]
+
+
 def redis_source_rules(ctx: Ctx, rule="R-C01-SOURCE") -> None:
     mp = ctx.func(f"{C.REDIS_CONS}.__mark_processing")
     hs = [c for c in ast.walk(mp.node) if isinstance(c, ast.Call) and isinstance(c.func, ast.Attribute) and c.func.attr == "hset"]
@@ -419,6 +426,8 @@ def redis_source_rules(ctx: Ctx, rule="R-C01-SOURCE") -> None:
                 markers.add(last.value.split(":")[-1])
             elif isinstance(last, ast.FormattedValue) and isinstance(last.value, ast.IfExp):
                 markers |= {last.value.body.value, last.value.orelse.value}
+            elif isinstance(last, ast.FormattedValue) and isinstance(last.value, ast.Name):
+                markers |= {d_.value for d_ in C.local_defs(q, last.value.id) if isinstance(d_, ast.Constant)}
     hm_names = {t.id for n in ast.walk(rj.node) if isinstance(n, (ast.Assign, ast.AnnAssign)) and isinstance(n.value, ast.Await) and isinstance(n.value.value, ast.Call)
                 and isinstance(n.value.value.func, ast.Attribute) and n.value.value.func.attr == "hmget" for t in (n.targets if isinstance(n, ast.Assign) else [n.target]) if isinstance(t, ast.Name)}
 
@@ -429,15 +438,14 @@ def redis_source_rules(ctx: Ctx, rule="R-C01-SOURCE") -> None:
             and isinstance(c.comparators[0].value, str) and from_marker(c.left)}
     ctx.check(markers == {"n", "d", "dead"} and disp == {"dead"}, rule, rj, "redis: every queue marker has a reject route", f"markers {sorted(markers)}; 'dead' explicit, n/d by due time",
               f"redis queue markers are {sorted(markers)} but reject dispatches on {sorted(disp)}", instance="redis: markers vs dispatch")
-    g = ctx.cfg(rj)
-    piq = [n for n in g.calls() if (n.callee or "").endswith("__put_in_queue")]
-    ok = len(piq) == 1 and C.is_const(C.kw(piq[0].ast, "in_front"), True)
+    piq = piq_sites(ctx, rj)
+    ok = len(piq) == 1 and C.is_const(C.arg(piq[0], 3, "in_front"), True)
     ctx.check(ok, rule, rj, "redis reject returns the message in front", "in_front=True", "redis reject does not put the returned message at the consumption end", instance="redis: reject in front")
-    piq_call = piq[0].ast if piq else None
-    du = C.kw(piq_call, "delay_until") if piq_call is not None else None
+    piq_call = piq[0] if piq else None
+    du = C.arg(piq_call, 2, "delay_until") if piq_call is not None else None
     src_ok = False
     if du is not None:
-        for x in C.expand_locals(rj, du, depth=4):
+        for x in C.expand_locals(rj, du):
             for s_ in ast.walk(x):
                 if isinstance(s_, ast.Call) and (dotted(s_.func) or "").endswith("PARAMETERS_CLASS.decode") and any(
                         isinstance(y, ast.Subscript) and dotted(y.value) in hm_names and C.is_const(y.slice, 0) for y in ast.walk(s_)):
@@ -451,7 +459,7 @@ def rabbit_rules(ctx: Ctx, rule_t="R-C01-TRANSFER", rule_a="R-C01-ATOMIC", atomi
     want = {"ack": ("basic_ack", {}), "nack": ("basic_nack", {"requeue": False}), "reject": ("basic_reject", {"requeue": True})}
     for op, (cmd, kws) in want.items():
         f = ctx.func(f"{C.RABBIT_BROKER}.{op}")
-        g = ctx.cfg(f)
+        g = ctx.icfg(f, exclude=tuple(C.BROKER_OPS), substitute=True)  # a shared 'pop the tag' helper is part of the operation
         pops = [n for n in g.calls() if (n.callee or "") == "self._id_to_delivery_tag.pop"]
         cmds = [n for n in g.calls() if (n.callee or "").startswith("self._channel.basic_")]
         ok = len(pops) == 1 and unparse(pops[0].ast.args[0]) == "key.id_" and len(cmds) == 1 and cmds[0].callee.endswith(cmd)
@@ -459,8 +467,25 @@ def rabbit_rules(ctx: Ctx, rule_t="R-C01-TRANSFER", rule_a="R-C01-ATOMIC", atomi
         if not ok:
             continue
         c = cmds[0]
-        tagv = C.local_defs(f, "delivery_tag")
-        ok = dotted(c.ast.args[0]) == "delivery_tag" and len(tagv) == 1 and tagv[0] is pops[0].ast
+
+        def from_pop(fn_, e, depth=3):
+            """e (in fn_) is the popped tag: the pop itself, a local defined by it, or what a helper returns from it."""
+            if e is pops[0].ast or (isinstance(e, ast.NamedExpr) and e.value is pops[0].ast):
+                return True
+            if depth <= 0:
+                return False
+            if isinstance(e, ast.Name):
+                defs = C.local_defs(fn_, e.id)
+                return len(defs) == 1 and from_pop(fn_, defs[0], depth - 1)
+            if isinstance(e, ast.Call):
+                for cal in ctx.res.callees(fn_, e, record=False):
+                    # the inlined copy of the helper holds the pop node
+                    for nn in g.nodes:
+                        if nn.func.qualname == cal.qualname and nn.kind == "return" and isinstance(nn.ast, ast.Return) and nn.ast.value is not None and from_pop(nn.func, nn.ast.value, depth - 1):
+                            return True
+            return False
+
+        ok = from_pop(c.func, c.ast.args[0]) if c.ast.args else False
         ctx.check(ok, rule_t, f, f"rabbitmq {op}: {cmd}(tag of this message)", "the popped tag", f"rabbitmq {op} sends {unparse(c.ast)}", node=c, instance=f"rabbitmq {op}: tag")
         for k, v in kws.items():
             got = C.kw(c.ast, k)
